@@ -58,13 +58,13 @@ theorem retry_bounds (a : Arr) (pos : Nat) (o : Oracle) (h : a.size ≤ a.capa) 
 
 /-- insert: on success the slot table is the list-level spec (gap padded with empties beyond the
     end, tail shifted inside), the return value is the position; on failure nothing observable
-    changed -/
+    changed and no style callback ran: the data stays with the caller -/
 theorem insert_spec (a : Arr) (pos v : Nat) (o : Oracle) (h : WF a) :
     let r := insert a pos v o
     (r.ret = .ok pos ∧ abs r.arr = insSlots (abs a) pos v ∧
         r.arr.size = (if pos > a.size then pos + 1 else a.size + 1) ∧ r.arr.tally = a.tally + 1 ∧ r.evs = [] ∧
         r.arr.size ≤ r.arr.capa)
-    ∨ (r.ret = .error .enomem ∧ r.arr = a ∧ (r.evs = [] ∨ r.evs = [.freed v])) := by
+    ∨ (r.ret = .error .enomem ∧ r.arr = a ∧ r.evs = []) := by
   intro r
   simp only [r, insert]
   cases o.next with
